@@ -63,9 +63,10 @@ func init() {
 			fmt.Println("HARNESS-ERROR: C10 pow:", err)
 			return 2
 		}
+		n += c10.EpochBoundary(r, tier)
 		r.Count("pow_cases", n)
 		return r.Finish(ev.Coverage{States: states, Transitions: trans, Traces: traces, Evaluations: n, Distinct: n,
-			Rule:       "explicit-state BFS (client installed by creation, and in a second search by a real governance upgrade of an older client) over submission orders of a header tree (two competing branches from genesis with sub-forks, every header of the universe submitted at every state incl. orphans and re-submissions) on the real ETH client (chain id 4), 13 single-field rule mutations of a child of the head at every state; the searches are repeated with header gas profiles above target with a base fee of a few wei (the increase rounds to zero and is floored at 1) and exactly at target; oracle: accepted iff parent accepted (both directions: the statement demands that valid children of stored headers are accepted), head = last accepted, consensus states on the head's ancestry = ancestors' roots; plus difficulty/PoW mutations on recorded main-net headers with real ethash",
+			Rule:       "explicit-state BFS (client installed by creation, and in a second search by a real governance upgrade of an older client) over submission orders of a header tree (two competing branches from genesis with sub-forks, every header of the universe submitted at every state incl. orphans and re-submissions) on the real ETH client (chain id 4), 13 single-field rule mutations of a child of the head at every state; the searches are repeated with header gas profiles above target with a base fee of a few wei (the increase rounds to zero and is floored at 1) and exactly at target; oracle: accepted iff parent accepted (both directions: the statement demands that valid children of stored headers are accepted), head = last accepted, consensus states on the head's ancestry = ancestors' roots; plus difficulty/PoW mutations on recorded main-net headers with real ethash; plus a mined proof-of-work tree across the ethash epoch boundary at height 30000 (two branches) submitted in every parent-before-child order (thorough: also with one premature child) with seal mutations of the first header of the new epoch",
 			Exhaustive: exhaustive,
 			Bounds:     map[string]interface{}{"universe_headers": len(c10.Universe(tier)), "max_tree_depth": map[string]int{"quick": 3, "thorough": 4}[tier], "bfs_depth": cfgs[0].depth},
 			Assumptions: []string{"keccak/RLP/ethash trusted; go-ethereum's misc.CalcBaseFee is the generator's ground truth for base fees", "the trusting period is reached only in the expiry variant (genesis leaves it after the second operation; pruning of the oldest state)", "sibling headers with equal state roots explored only in the thorough tier, reported under their own signature"}})
